@@ -200,11 +200,38 @@ class Ctx:
             if 'Closed under the global context' in b:
                 self.obligation('theorem:%s.%s' % (module, n), True)
                 continue
-            ax = re.findall(r'^([A-Za-z_][\w.\']*)\s*:', b, flags=re.M)
+            ax = [a for a in re.findall(r'^([A-Za-z_][\w.\']*)\s*:', b, flags=re.M) if a != 'Axioms']
             bad = [a for a in ax if not a.startswith(ALLOWED_AXIOM_PREFIXES) and a not in allow_extra_axioms]
             self.axioms.update(ax)
             self.obligation('theorem:%s.%s' % (module, n), not bad and bool(ax), 'non-stdlib axioms: %s' % bad if bad else '')
         return ok
+
+    def compile_tie(self, gen_name, gen_text, stages, timeout=600):
+        """B1: compile the freshly traced definitions, then the committed tie files (coq/tie/*.v) stage
+        by stage (files of one stage in parallel).  Every file is an obligation; axioms printed by
+        `Print Assumptions` inside them are collected and checked against the allowed list."""
+        ok, out = self.coqc(gen_name, gen_text, timeout)
+        self.obligation('translator-output-compiles:%s' % gen_name, ok, out[-1500:])
+        if not ok:
+            for st in stages:
+                for f in st:
+                    self.obligation('tie:%s' % f, False, 'not attempted: generated definitions do not compile')
+            return False
+        allok = True
+        for st in stages:
+            files = [(f, open(os.path.join(COQ, 'tie', f + '.v')).read()) for f in st]
+            res = self.coqc_many(files, timeout) if allok else [(False, 'not attempted: an earlier tie stage failed')] * len(files)
+            for (f, _), (ok, out) in zip(files, res):
+                self.obligation('tie:%s' % f, ok, out[-2500:])
+                allok = allok and ok
+                if ok and 'Axioms:' in out:
+                    ax = re.findall(r'^([A-Za-z_][\w.\']*)\s*$|^([A-Za-z_][\w.\']*)\s*:', out, flags=re.M)
+                    ax = [a or b for a, b in ax if (a or b) not in ('Axioms',) and '.' in (a or b)]
+                    bad = [a for a in ax if not a.startswith(ALLOWED_AXIOM_PREFIXES)]
+                    self.axioms.update(a for a in ax if a.startswith(ALLOWED_AXIOM_PREFIXES))
+                    if bad:
+                        self.obligation('tie-axioms:%s' % f, False, 'non-stdlib axioms: %s' % bad)
+        return allok
 
     # ------------------------------------------------------------ evaluating models in Coq
     def coq_eval(self, preamble, terms, label='cases', chunk=250, timeout=600):
